@@ -2,7 +2,7 @@
 import os, json
 from dataclasses import dataclass, field
 from .common import *
-from . import stream_iter, oracle
+from . import stream_iter, stream_segment, oracle
 
 TRUSTED_BASE = [
     "Lean 4.33.0 kernel; Mathlib v4.33.0 (imported only by PsSpec/PsProofs/PsProps)",
@@ -42,9 +42,9 @@ class Prop:
 
 def _iter_filter(prop, scripts):
     if prop == "C01":
-        keep = ("small-fwd", "small-long-fwd", "mag-fwd", "big-fwd", "past-hint", "top-", "seam-fwd")
+        keep = ("small-fwd", "small-long-fwd", "mag-fwd", "big-fwd", "past-hint", "top-", "seam-fwd", "fwd-")
     elif prop == "C02":
-        keep = ("small-bwd", "to-zero", "mag-bwd", "big-bwd", "past-hint-bwd", "seam-bwd", "top-bwd")
+        keep = ("small-bwd", "to-zero", "mag-bwd", "big-bwd", "past-hint-bwd", "seam-bwd", "top-bwd", "bwd-")
     else:
         return scripts
     return [s for s in scripts if s[0].startswith(keep)]
@@ -102,7 +102,7 @@ def iter_witness(ctx, obligations_failed, tie_fail):
     """directed search: thorough generator at several seeds, implementation vs cursor oracle"""
     for k in range(3):
         r = rng(f"iter-witness-{ctx.prop}-{k}")
-        scripts = _iter_filter(ctx.prop, stream_iter.gen_scripts("thorough" if k else "quick", r))
+        scripts = _iter_filter(ctx.prop, stream_iter.gen_scripts("quick", r))
         res = stream_iter.run_stream(ctx.harness, ctx.model, scripts, ctx.workdir, f"witness{k}")
         if res["harness_rc"] != 0:
             bad = _bisect_crash(ctx, scripts)
@@ -118,8 +118,86 @@ def iter_witness(ctx, obligations_failed, tie_fail):
     return None
 
 
+# --------------------------------------------------------------------------------------------
+# segment stream (Erat layer): used by every property that depends on sieved segments
+# --------------------------------------------------------------------------------------------
+
+def segment_tie(ctx, tie_fail, tier=None, tag="segment"):
+    tier = tier or ctx.tier
+    r = rng("segment-" + ctx.prop + tag)
+    ops = stream_segment.gen_ops(tier, r)
+    res = stream_segment.run_stream(ctx.harness, ctx.model, ops, ctx.workdir, tag)
+    content, geom, cov = stream_segment.analyse(ops, res)
+    cov["rule"] = ("cases = (start, stop, sieve KiB) intervals sieved segment by segment through the real "
+                   "PrimeGenerator/Erat; every bit of every segment is checked against the harness oracle and the "
+                   "segment geometry against the Lean model; non-trivial = at least one segment was sieved; "
+                   "distinct by the (start, stop, KiB) triple")
+    cov["samples"] = [{"partition": l, "op": o} for l, o in ops[:2]] + [{"trace_line": x[:300]} for x in res["impl_lines"][:2]]
+    if res["harness_rc"] != 0:
+        bad = None
+        for label, o in ops:
+            r1 = stream_segment.run_stream(ctx.harness, ctx.model, [(label, o)], ctx.workdir, "bisect")
+            if r1["harness_rc"] != 0:
+                bad = o
+                break
+        tie_fail.append(("segment", "harness aborted (sanitizer / assertion / crash): " + res["harness_err"][-600:],
+                         {"kind": "impl-crash", "op": bad, "stderr": res["harness_err"][-3000:], "key": f"crash:{bad}"} if bad else None))
+        return cov
+    if res["model_rc"] != 0:
+        tie_fail.append(("segment", "model driver failed: " + res["model_err"], None))
+        return cov
+    for o, obs in content[:1]:
+        tie_fail.append(("segment", f"sieved segment differs from the primes of its interval: {o} -> {obs[:300]}",
+                         {"kind": "impl-vs-spec", "op": o, "observed": obs[:600], "key": "segment:" + o}))
+    if not content and geom:
+        o, a, b = geom[0]
+        tie_fail.append(("segment", f"segment geometry of model and implementation differ for `{o}`: impl `{a[:400]}` model `{b[:400]}`", None))
+    cov["disagreements_checked"] = len(content) + len(geom)
+    return cov
+
+
+def segment_witness(ctx, obligations_failed, tie_fail):
+    for k in range(2):
+        tf = []
+        segment_tie(ctx, tf, tier="quick", tag=f"segwit{k}")
+        hit = [t for t in tf if t[2] is not None]
+        if hit:
+            return hit[0]
+    return None
+
+
+def combine(*fs):
+    """tie function running several streams and merging their coverage"""
+    def tie(ctx, tie_fail):
+        cov = {"evaluations": 0, "distinct_nontrivial": 0, "samples": [], "streams": {}, "rule": ""}
+        for name, f in fs:
+            c = f(ctx, tie_fail)
+            cov["evaluations"] += c.get("evaluations", 0)
+            cov["distinct_nontrivial"] += c.get("distinct_nontrivial", 0)
+            cov["samples"] += c.get("samples", [])[:4]
+            cov["rule"] += f"[{name}] " + c.get("rule", "") + " "
+            cov["streams"][name] = {k: v for k, v in c.items() if k not in ("samples", "rule")}
+        cov["traces_validated_against_impl"] = cov["evaluations"]
+        return cov
+    return tie
+
+
+def combine_witness(*fs):
+    def w(ctx, obligations_failed, tie_fail):
+        for f in fs:
+            r = f(ctx, obligations_failed, tie_fail)
+            if r is not None:
+                return r
+        return None
+    return w
+
+
 def replay(ctx, data):
     """re-run a replay file; returns {'fails': bool, ...}"""
+    if data.get("stream") == "segment" and data.get("op"):
+        res = stream_segment.run_stream(ctx.harness, ctx.model, [("replay", data["op"])], ctx.workdir, "replay")
+        content, geom, _ = stream_segment.analyse([("replay", data["op"])], res)
+        return {"fails": bool(content) or res["harness_rc"] != 0, "observed": res["impl_lines"][-1:], "stderr": res["harness_err"][-1500:]}
     if "history" in data and data.get("stream", "iter") == "iter":
         scripts = [("replay", data["history"])]
         res = stream_iter.run_stream(ctx.harness, ctx.model, scripts, ctx.workdir, "replay")
@@ -142,7 +220,8 @@ REGISTRY = {
         targets=["PsProps.C01"],
         theorems=[("PsProps.C01", "Ps.Props.C01_forward"), ("PsProps.C01", "Ps.Props.C01_sequence_exact"),
                   ("PsProps.C01", "Ps.Props.C01_blocks_nonempty")],
-        tie=iter_tie, witness=iter_witness, assumptions=ITER_ASSUME,
+        tie=combine(("iter", iter_tie), ("segment", segment_tie)),
+        witness=combine_witness(iter_witness, segment_witness), assumptions=ITER_ASSUME,
         undischarged=["IGen ~ PrimeGenerator (sieve chain, DESIGN section 9 Tier B)"],
         explanation="forward iteration = primeSeq for every start, hint, block policy and float oracle; "
                     "termination of generate_next_primes is the well-founded recursion of genNextFresh"),
